@@ -85,7 +85,8 @@ def gen(rng):
                           'advance': adv})
         elif r < 0.75:
             nm = rng.choice(pool)
-            pat = rng.choice([nm, nm, '*', nm[:1] + '*', '?' * len(nm), '*' + nm[-1:], home + '/w/*', '/*/' + nm, '[a-f]*', 'nomatch', nm.upper()])
+            pat = rng.choice([nm, nm, '*', nm[:1] + '*', '?' * len(nm), '*' + nm[-1:], home + '/w/*', '/*/' + nm, '[a-f]*', 'nomatch', nm.upper(),
+                              '*sub*', '*/*', '[!a]*', '*w*', '*deeper*'])
             procs.append({'argv': ['trash-rm', pat], 'env': env, 'cwd': rng.choice(dirs), 'uid': uid, 'advance': adv})
         elif r < 0.85:
             argv = ['trash-empty']
